@@ -66,7 +66,7 @@ PROPS.update({
     "C03": {
         "title": "Myers and LCS report a shortest edit script; ratio = 2*LCS/(N+M)",
         "module": "SimilarVerif.Props.C03",
-        "suites": ["raw", "cap"],
+        "suites": ["raw", "cap", "text"],
         "rule": "raw/cap as for C01/C02; the validator computes a brute-force DP LCS for every Myers and LCS run (raw and captured) and compares deleted+inserted, equal total and the f32 ratio",
         "theorem_status": "lower bound for every valid script (full); LCS minimal for all inputs and sub-ranges (full); clean-up and Replace keep item counts (partial correctness of Compact); Myers minimal (full: raw stream costs N+M-2L and beats every valid script; theory in Lemmas/MyersTheory+MyersOptimal); captured LCS minimal; captured Myers: counts preserved by the pipeline (C10) so minimal as well",
         "level_text": "Lean theorems: cost >= N+M-2L for every valid script; LCS raw stream attains it (table correctness + greedy walk optimality + prefix/suffix stripping); clean-up preserves counts; Myers raw stream attains it as well (middle-snake theory: the split point lies on an optimal path). Minimality is also validated on the implementation by brute force on the whole explored space.",
@@ -103,7 +103,7 @@ PROPS.update({
     "C09": {
         "title": "Captured diffs are in canonical normal form",
         "module": "SimilarVerif.Props.C09",
-        "suites": ["cap", "script", "deadline"],
+        "suites": ["cap", "script", "deadline", "text"],
         "rule": "cap/deadline/script as for C02/C07/C10; the normal-form validator (alternation, no empty op, delete+insert merged, insert at latest position) runs on every captured op list and on every arbitrary script pushed through Compact+Replace",
         "theorem_status": "clauses 1-3 (alternation, no adjacent changes, no empty op) full for Replace on any valid script; clause 4 (insertion at latest position) full for the clean-up output (CompactT.cleanup_insert_latest, both swap variants)",
         "level_text": "Lean theorems: clauses 1-3 for the Replace stage on every valid script, clause 4 (insertion at its latest position) for the output of the clean-up on every valid script (shipped and repaired swap); clean-up model compared with the code on all valid scripts of a small scope and on every captured diff.",
@@ -112,7 +112,7 @@ PROPS.update({
     "C11": {
         "title": "Every captured op carries exact positions in both sequences",
         "module": "SimilarVerif.Props.C11",
-        "suites": ["cap", "deadline"],
+        "suites": ["cap", "deadline", "text"],
         "rule": "cap as for C02, without deadline; every captured op list is checked for exact positions; a failing case is re-run with the cfg(similar_verif) swap-repair switch and attributed to the known finding only if the failure disappears",
         "theorem_status": "the unchanged code violates C11 (known finding KF-compact-swap): counterexample theorem on the shipped model; with the swap repair the clean-up keeps exactness for all valid scripts; shipped and repaired variants differ only in carried indices; Replace/LCS/Myers-without-deadline stages exact; end to end: captured Myers ops exact with the repaired swap (unconditional)",
         "level_text": "Lean theorems: negation witness for the shipped swap, positive theorem for the repaired swap, attribution lemma; both variants of the implementation compared with both variants of the model.",
